@@ -136,7 +136,8 @@ def gen_zoo(rng):
     add("a.Map$1[string,[2]main.T]", core(efunc(PA, "Map", [1], [STRING, array(2, mT)])), "inst")
     add("a.LF[int8]", core(efunc(PA, "LF", (), [INT8])), "inst")
     add("a.LF[int64]", core(efunc(PA, "LF", (), [INT64])), "inst")
-    # the recorded collision: wrappers compiled into main for the foreign types a.K and b.K
+    # wrappers compiled into main for the foreign types a.K and b.K (one name before the fix
+    # 'keep the package of a foreign receiver in wrapper names'; the section known:wrapper-... prints what they call)
     add("main: a.K.M$bound", core(ewrap(PM, "bound", PA, False, "K", (), M)), "known-wrap")
     add("main: b.K.M$bound", core(ewrap(PM, "bound", PB, False, "K", (), M)), "known-wrap")
     add("main: (*a.K).P$thunk", core(ewrap(PM, "thunk", PA, True, "K", (), P)), "known-wrap")
